@@ -283,6 +283,25 @@ func (s *c08Srv) serveConn(c net.Conn) {
 			if n == s.sc.NCalls {
 				close(s.callsCh)
 			}
+			if s.sc.Fault == "status" {
+				// the call is answered with an HTTP error status and a body; the connection stays open
+				select {
+				case <-s.callsCh:
+				case <-time.After(3 * time.Second):
+				}
+				s.mu.Lock()
+				if s.faultAt.IsZero() {
+					s.faultAt = time.Now()
+				}
+				s.mu.Unlock()
+				body := `{"error":"upstream unavailable","detail":"` + strings.Repeat("e", 300) + `"}`
+				code := 503
+				if s.sc.At == "status-404" {
+					code = 404
+				}
+				io.WriteString(c, httpHead(code, "application/json", "", len(body))+body)
+				continue
+			}
 			if s.sc.At == "req-mid" {
 				s.mu.Lock()
 				s.total, s.offset = 0, 0
@@ -753,6 +772,17 @@ func c08Run(sc c08Scenario) (res c08Result) {
 	if res.Pending < 0 {
 		res.Pending = 0
 	}
+	// an answered call (HTTP error status) leaves nothing behind while the peer is still there and its connections are open
+	liveHTTPG := 0
+	if sc.Fault == "status" && srv != nil {
+		for dl := time.Now().Add(1200 * time.Millisecond); ; time.Sleep(25 * time.Millisecond) {
+			http.DefaultTransport.(*http.Transport).CloseIdleConnections()
+			liveHTTPG = httpConnGoroutines() - h0
+			if liveHTTPG <= 0 || time.Now().After(dl) {
+				break
+			}
+		}
+	}
 	// the peer goes away for good; what the client still holds now is a leak
 	if srv != nil {
 		srv.closeAll()
@@ -768,6 +798,9 @@ func c08Run(sc c08Scenario) (res c08Result) {
 			break
 		}
 		time.Sleep(25 * time.Millisecond)
+	}
+	if liveHTTPG > 0 {
+		res.HTTPG = liveHTTPG
 	}
 	if res.LibG <= 0 {
 		res.Sample = ""
